@@ -7,6 +7,7 @@ from ..spec import Clock, UNIT_NS, local_ok
 from ..canon import Snap, vec_diff, mat_diff, nodal_row_index
 
 PROPERTY = 'C08'
+gen.OFFGRID = 0.12      # some asset windows start or end strictly between two grid points
 CASES = {'quick': 432, 'thorough': 3456}
 BUDGET_S = {'quick': 240, 'thorough': 2400}
 RULE = ('case = a random portfolio P (windows in every placement, take periods partly outside the horizon) and P+ = P plus one element lying '
